@@ -1,4 +1,4 @@
-from jinja2 import Environment, contextfilter
+from jinja2 import Environment, StrictUndefined, contextfilter
 from jinja2.nativetypes import NativeEnvironment
 
 from rpft.logger.logger import get_logger
@@ -33,11 +33,13 @@ class CellParser:
         return eval(string, {}, context)
 
     def __init__(self):
-        self.env = Environment()
+        self.env = Environment(undefined=StrictUndefined)
         self.env.filters["escape"] = CellParser.escape_string
         self.env.filters["eval"] = CellParser.evaluate_string
         self.native_env = NativeEnvironment(
-            variable_start_string="{@", variable_end_string="@}"
+            variable_start_string="{@",
+            variable_end_string="@}",
+            undefined=StrictUndefined,
         )
         self.native_env.filters["escape"] = CellParser.escape_string
         self.native_env.filters["eval"] = CellParser.evaluate_string
